@@ -28,5 +28,13 @@ CHECK = {
                              "middleware/cache": ["zz_verif_export_authsim.go", "zz_verif_export_c13zone.go"],
                              "internal/authority": ["zz_verif_export_authsim.go", "zz_verif_export_c12topo.go"]},
                  "shards": 16, "gomaxprocs": 2, "budget_s": {"quick": 75, "thorough": 600}},
+        # load shedding is request-local: capacity limits forced to 1, client A's upstream reply held, client B refused;
+        # the failure store must stay empty and fresh clients must be answered with the zone's data
+        "shed": {"pkg": "internal/verifshim/h_c13shed", "run": "TestVerifC13Shed",
+                 "harness": {"middleware": ["zz_verif_export.go"],
+                             "middleware/resolver": ["zz_verif_export_authsim.go", "zz_verif_export_c12topo.go", "zz_verif_export_c13shed.go"],
+                             "middleware/cache": ["zz_verif_export_authsim.go", "zz_verif_export_c13zone.go"],
+                             "internal/authority": ["zz_verif_export_authsim.go"]},
+                 "shards": 16, "gomaxprocs": 2, "budget_s": {"quick": 60, "thorough": 400}},
     },
 }
